@@ -28,6 +28,7 @@ def c2(ctx):
 
 
 def c4(ctx):
+    notes.columns_rule(ctx)
     notes.notedata_verbatim(ctx)
     notes.notetype_table(ctx)
 
